@@ -51,6 +51,12 @@ def abstract_value(x):
     if isinstance(x, (complex, np.complexfloating)):
         return ("KComplex", 0, 0, 0)
     if isinstance(x, str):
+        try:
+            x.encode("utf-8")
+        except UnicodeEncodeError:
+            # a str holding a lone surrogate: astype(str) raises on it, so it is not the model's KStr
+            # (whose measured round trip is "true"); judged by the oracles only
+            raise OutsideUniverse("str that is not encodable (lone surrogate)")
         return ("KStr", 0, 0, 0)
     if isinstance(x, bytes):
         return ("KBytes", 0, 0, 0)
